@@ -272,6 +272,17 @@ func init() {
 		e.events = append(e.events, sinkEvent{Kind: "remove", Path: p})
 		return iface{}
 	}
+	intrinsics["os.RemoveAll"] = func(fr *frame, args []value) value {
+		e := fr.i.ctx.env
+		p := cleanPath(e, fr.pathArg(args[0]))
+		for q := range e.files {
+			if q == p || strings.HasPrefix(q, p+"/") {
+				delete(e.files, q)
+			}
+		}
+		e.events = append(e.events, sinkEvent{Kind: "removeall", Path: p})
+		return iface{}
+	}
 	intrinsics["os.Symlink"] = func(fr *frame, args []value) value {
 		e := fr.i.ctx.env
 		e.putNode(fr.pathArg(args[1]), &vnode{symlink: fr.pathArg(args[0])})
